@@ -100,7 +100,8 @@ def env(b):
 
     b.bind('os', Obj('os', fstat=Model('fstat', fstat), sep='/', fspath=_fspath(),
                      path=Obj('os.path', exists=Model('exists', lambda i, s, a, k: iter([(s, sym.fresh(BOOL, 'exists'))])),
-                              split=Model('split', _os_path_split))))
+                              split=Model('split', _os_path_split),
+                              relpath=Model('relpath', _os_path_relpath))))
     b.sym('chunk_size', INT)
     b.sym('length', INT)
     b.sym('data', BYTES)
@@ -115,6 +116,16 @@ def _fspath():
 def _os_path_split(interp, st, args, kwargs):
     z = sym.lift(args[0], STR).z
     yield st, (SV(STR, UF('split_head', STR, STR)(z)), SV(STR, UF('split_tail', STR, STR)(z)))
+
+
+def _os_path_relpath(interp, st, args, kwargs):
+    # os.path.relpath(p, base) for p below base: the trailing part of p (assumed; bounded stand-in C13.local.list_names
+    # exercises every spelling of the repository path)
+    z = sym.lift(args[0], STR).z
+    r = sym.fresh(STR, 'rel')
+    st.assume(z3.SuffixOf(r.z, z))
+    st.emit('relpath', base=args[1])
+    yield st, r
 
 
 def dest_temp_model(b):
